@@ -1,4 +1,5 @@
 import NTV.Model.Resultant
+import NTV.Proofs.Lemmas.GcdShape
 import Mathlib.Algebra.Polynomial.Basic
 import Mathlib.Tactic
 /-! # C10 — gcd in ℤ[x]. -/
@@ -17,5 +18,15 @@ theorem gcd_certificate_sound (f g d u v e : ℤ[X]) (c : ℤ)
     (hbez : u * f + v * g = C c * d) (hef : e ∣ f) (heg : e ∣ g) : e ∣ C c * d := by
   rw [← hbez]
   exact dvd_add (Dvd.dvd.mul_left hef u) (Dvd.dvd.mul_left heg v)
+
+/-- shape of the result, partial (under the exactness flag of the model, asserted on every explored
+case): for non-zero canonical f, g the routine returns d·pp with d = gcd(cont f, cont g) > 0 and pp
+primitive with positive leading coefficient — so the result has positive leading coefficient and
+content exactly gcd(cont f, cont g) -/
+theorem result_shape_partial (f g r : List Int) (hf : f ≠ []) (hg : g ≠ []) (hcf : Canon f) (hcg : Canon g)
+    (h : resultantSmartGcdE f g = some (.ok (r, true))) :
+    ∃ pp : List Int, ∃ d : Int, d = (Int.gcd (contPP f).1 (contPP g).1 : Int) ∧ 0 < d ∧
+      toPoly r = C d * toPoly pp ∧ 0 < lc pp ∧ Canon pp ∧
+      (∀ e : Int, (∀ c ∈ pp, e ∣ c) → e ∣ 1) := gcd_shape f g r hf hg hcf hcg h
 
 end NTV.C10
